@@ -102,6 +102,14 @@ def column_oracle(ctx, conn, table, column, expected, lk):
 def run_ledger(ctx, lk, entries, errors, options):
     conn = ledgers.connect(entries, errors, options)
     facts = ctx.facts
+    if lk % 2 == 1:
+        # the tables present the ledger whatever was queried before on the connection: qualified statements first
+        for q in ('SELECT count(*) FROM OPEN ON 2020-01-01 CLOSE ON 2020-06-01 CLEAR', 'SELECT date FROM #entries',
+                  'BALANCES FROM CLOSE ON 2020-03-01', 'SELECT account FROM year >= 2020 OPEN ON 2020-02-01'):
+            try:
+                conn.execute(q).fetchall()
+            except Exception as exc:  # noqa: BLE001
+                ctx.record_violation('statement-raises', '%s: %r' % (q, exc))
     exp_e = expected_entries(entries)
     exp_p = expected_postings(entries)
     for col in facts['tables']['entries']['columns']:
